@@ -817,10 +817,12 @@ class Evaluator:
                         c.d[k] = new
                     else:
                         walk(x)
-            elif isinstance(c, (ListV, TupleV)):
+            elif isinstance(c, (ListV, TupleV, self.ext.StackV)):
                 for i, x in enumerate(list(c.items)):
                     if x is old:
                         c.items[i] = new
+                        if isinstance(c, self.ext.StackV):
+                            self.trace.append(("inplace-alias", "component of a stacked array", old, new))
                     else:
                         walk(x)
         for k, x in list(fr.env.items()):
@@ -937,6 +939,8 @@ class Evaluator:
             n = v.shape[0]
             if n.is_number:
                 return [self.ext.num_getitem(self, v, Num(i), fr, node) for i in range(int(n))]
+        if isinstance(v, self.ext.StackV) and v.axis == 0:
+            return list(v.items)        # the components themselves: views of the stacked array, not copies
         self.unsupported(f"iteration over {v!r}", node, fr)
 
     def unkey(self, k):
